@@ -262,7 +262,7 @@ impl Check for C06 {
     }
     fn budget(&self, tier: Tier) -> Budget {
         match tier {
-            Tier::Quick => Budget { runs: 30_000, wall_s: 60 },
+            Tier::Quick => Budget { runs: 100_000, wall_s: 90 },
             Tier::Thorough => Budget { runs: 1_000_000, wall_s: 600 },
         }
     }
